@@ -13,11 +13,19 @@ struct Raw {
     segs: std::collections::VecDeque<usize>,
     pulled: Arc<AtomicUsize>,
     starved: Arc<AtomicBool>,
+    /// `eintr=<k>`: raw read number k (0-based) fails once with `Interrupted`, consuming nothing
+    intr_at: Option<usize>,
+    reads: usize,
 }
 impl Read for Raw {
     fn read(&mut self, buf: &mut [u8]) -> std::io::Result<usize> {
         if buf.is_empty() {
             return Ok(0);
+        }
+        let k = self.reads;
+        self.reads += 1;
+        if self.intr_at == Some(k) {
+            return Err(std::io::Error::new(std::io::ErrorKind::Interrupted, "EINTR"));
         }
         let left = self.data.len() - self.pos;
         if left == 0 {
@@ -54,7 +62,9 @@ pub fn body(arg: &str) -> String {
     let mut api = "read".to_string();
     let mut sched = Vec::new();
     let mut ek = false;
+    let mut intr_at: Option<usize> = None;
     for w in arg.split_whitespace() {
+        if let Some(v) = w.strip_prefix("eintr=") { intr_at = v.parse().ok() }
         if let Some(v) = w.strip_prefix("kind=") { kind = v.to_string() }
         if let Some(v) = w.strip_prefix("lo=") { lo = unhex(v) }
         if let Some(v) = w.strip_prefix("st=") { st = unhex(v) }
@@ -65,7 +75,7 @@ pub fn body(arg: &str) -> String {
     }
     let pulled = Arc::new(AtomicUsize::new(0));
     let starved = Arc::new(AtomicBool::new(false));
-    let raw = Raw { data: st, pos: 0, segs: segs.into_iter().collect(), pulled: Arc::clone(&pulled), starved: Arc::clone(&starved) };
+    let raw = Raw { data: st, pos: 0, segs: segs.into_iter().collect(), pulled: Arc::clone(&pulled), starved: Arc::clone(&starved), intr_at, reads: 0 };
     let flag = AtomicBool::new(false);
     let reader = if let Some(n) = kind.strip_prefix("fixed:") {
         let n: usize = n.parse().unwrap_or(0);
@@ -98,6 +108,8 @@ pub fn body(arg: &str) -> String {
             match reader.read(&mut buf) {
                 Ok(0) => break,
                 Ok(n) => out.extend_from_slice(&buf[..n]),
+                // an interrupted read is retried, as `read_to_end` and every careful caller do
+                Err(e) if e.kind() == std::io::ErrorKind::Interrupted => continue,
                 Err(e) => {
                     outcome = if ek { format!("ERR:{}", errname(&e)) } else { "ERR".into() };
                     break;
@@ -117,6 +129,7 @@ pub fn body(arg: &str) -> String {
                     out.extend_from_slice(&b[..n]);
                     n
                 }
+                Err(e) if e.kind() == std::io::ErrorKind::Interrupted => continue,
                 Err(e) => {
                     outcome = if ek { format!("ERR:{}", errname(&e)) } else { "ERR".into() };
                     break;
